@@ -2337,10 +2337,22 @@ impl Timestamp {
     ) -> Result<Timestamp, Error> {
         let (second, nanosecond) =
             rangeint::uncomposite!(its, c => (c.second, c.nanosecond));
-        Ok(Timestamp {
+        let ts = Timestamp {
             second: second.try_to_rint("unix-seconds")?,
             nanosecond: nanosecond.to_rint(),
-        })
+        };
+        // The minimal number of seconds only permits a non-negative number
+        // of nanoseconds. (This is the invariant enforced by
+        // `Timestamp::new`.)
+        if ts.second == UnixSeconds::MIN_SELF && ts.nanosecond < C(0) {
+            return Err(err!(
+                "timestamp with {second} seconds and {nanosecond} \
+                 nanoseconds is less than the minimum supported timestamp",
+                second = ts.second,
+                nanosecond = ts.nanosecond,
+            ));
+        }
+        Ok(ts)
     }
 
     #[inline]
